@@ -15,7 +15,7 @@
    Definitions only; proofs are in Proofs/SketchPipeProofs.v. HashMap iteration order never
    matters here: each key has its own accumulator and the partitions are visited in order. *)
 From Coq Require Import List Bool Arith.
-From IB Require Import Combiners.Lawful.
+From IB Require Import Combiners.Lawful Combiners.KMV.
 Import ListNotations.
 
 (* ------------------------------------------------------------------ partitioning of a source *)
@@ -113,3 +113,16 @@ Section Pipe.
   Definition combine_values_lifted (key : K) (parts : nat) (recs : list (K * list V)) : option B :=
     option_map (c_finish c) (cvl_acc key (source_parts recs parts)).
 End Pipe.
+
+(* ------------------------------------------------------------------ src/helpers/distinct.rs
+   over ranks (rank_from_value is applied by add_input / build_from_group; Combiners/KMVRank.v) *)
+Section DistinctHelpers.
+  Context {R K : Type} (ltb eqb : R -> R -> bool) (keqb : K -> K -> bool).
+  (* PCollection::approx_distinct_count(k) = combine_globally(KMVApproxDistinctCount::new(k), None) *)
+  Definition approx_distinct_count (k parts : nat) (ranks : list R) : kmv_out R :=
+    combine_globally (kmv_combiner ltb eqb k) false 0 parts ranks.
+  (* PCollection::approx_distinct_count_per_key(k) = combine_values(KMVApproxDistinctCount::new(k)) *)
+  Definition approx_distinct_count_per_key (k : nat) (key : K) (parts : nat) (rows : list (K * R))
+    : option (kmv_out R) :=
+    combine_values (kmv_combiner ltb eqb k) keqb key parts rows.
+End DistinctHelpers.
